@@ -48,6 +48,18 @@ CHECKS = {
    note="Trusts only the reference canonicaliser written from the property text; 'rejected' = any exception.",
    technique="exhaustive enumeration of a finite domain + Hypothesis differential test vs reference canonicaliser",
    design="4/C10"),
+ "C13": dict(
+   text="Hypothesis metamorphic search: each drawn data set is run twice, as written and re-presented (q-point order with weights, mode order, weight scale, static column order/case/prefix, static row order, phonon volume-block order); tensors and pressure-base quantities must agree to 1e-8 of the tensor scale; for re-ordered volume blocks equality or an error.",
+   note="Data sets synthetic (as C05) ; shipped examples are not used in the quick tier.",
+   technique="Hypothesis metamorphic test (re-presentation invariance)", design="4/C13"),
+ "C14": dict(
+   text="Rule-based state machine over two data sets (construct/read/read-twice/write in any interleaving) whose every observation is compared bitwise with the result of a pristine process forked before any calculation ran; subprocess `cij run` under stratified PYTHONHASHSEED values and working-directory contents compared bytewise with a clean run; fill(fill(t)) = fill(t).",
+   note="Single-threaded BLAS; hash seeds, histories and cwd contents are sampled. A history that fails once but not when re-run in the same process is reported as state surviving between histories.",
+   technique="Hypothesis rule-based state machine with a pristine-process reference model + subprocess differential runs", design="4/C14"),
+ "C15": dict(
+   text="Hypothesis search over output sections (keywords, aliases, string/dict form, file-name and unit overrides, both bases) plus a complete enumeration of the documented keyword/alias table on both bases; files are re-read with an own parser: names, row/column labels, values x own unit factors, alias byte-identity, exactly the expected file set.",
+   note="Keyword table hard-coded from the documentation; QHA's table layout parsed by vcij/tables.py.",
+   technique="Hypothesis round-trip test (write, re-read with own parser, compare with in-memory results) + finite keyword enumeration", design="4/C15"),
 }
 NOT_APPLICABLE = {}
 
